@@ -156,3 +156,55 @@ def parallel_map_site(ctx: Ctx):
             if len(cs) >= 1:
                 target = cs[0].fn
     return fn, call, name, worker, target
+
+
+def option_declarations(ck):
+    """(parse function, [add_argument call nodes]) - searched in Args.parse and in every other function of its module (the
+    parser construction may have been moved to a helper)"""
+    p = ck.ctx.p
+    args_cls = p.get_class("src.args:Args")
+    parse = p.lookup_method(args_cls, "parse", None)
+    if parse is None:
+        raise AnalysisError("Args.parse not found")
+    nodes = []
+    seen = set()
+    fns = [parse] + [f for f in p.nontest_functions() if f.module is parse.module and f is not parse]
+    for f in fns:
+        for n in ast.walk(f.node):
+            if id(n) in seen:
+                continue
+            seen.add(id(n))
+            if isinstance(n, ast.Call) and isinstance(n.func, ast.Attribute) and n.func.attr == "add_argument":
+                nodes.append(n)
+    return parse, nodes
+
+
+def expand_simple_apps(ck, t: Term, depth: int = 2) -> Term:
+    """Replace every application of a repository function whose body is a single straight-line expression (selectors,
+    one-line helpers, properties written as methods) by that expression - used by a rule to retry when the shape it expects
+    is hidden behind such a call."""
+    ctx = ck.ctx
+    if depth <= 0:
+        return t
+
+    def go(x: Term) -> Term:
+        x = T.rebuild(x, go)
+        if x[0] == "app":
+            fn = ctx.p.functions.get(x[1])
+            if fn is not None and not fn.module.is_test:
+                env = dict(x[3])
+                if "*" in env:
+                    return x
+                levels = [y[1] for y in T.subterms(x) if y[0] == "bv"]
+                n = Normalizer(ctx, fn, env=env, level=(max(levels) + 1) if levels else 0)
+                if fn.self_name and x[2] is not None:
+                    n.env[fn.self_name] = x[2]
+                body = [s for s in fn.body] if not fn.is_lambda else fn.body
+                try:
+                    r = n._body_to_term(list(body)) if not fn.is_lambda else None
+                except Exception:
+                    r = None
+                if r is not None:
+                    return expand_simple_apps(ck, r, depth - 1)
+        return x
+    return go(t)
